@@ -207,8 +207,33 @@ def skipped_local_width_cases(ctx, n):
     return out
 
 
+def assoc_width_cases(ctx, n):
+    """Stratum: the same element carries an associated field under two different 204YYY widths in one message; a value of the
+    later (other-width) field equals the all-ones pattern of the earlier width. Mostly compressed with differing values."""
+    rng = ctx.rng
+    out = []
+    for k in range(n):
+        e = rng.choice([12001, 10004, 11001, 7001, 13003])
+        w0, w1 = rng.sample([2, 3, 4, 6, 8], 2)
+        out.append({'ids': [204000 + w0, 31021, e, 204000, 204000 + w1, 31021, e, 204000], 'version': 33, 'edition': 4,
+                    'nsub': rng.choice([2, 3, 4]), 'compressed': rng.random() < 0.8, 'forced': '-',
+                    'seed': rng.randrange(1, 2 ** 32), 'maxrep': 3, 'features': {'stratum-associated-field-two-widths': 1},
+                    'shared': False, 'probe': 'assoc-two-widths'})
+    return out
+
+
 def apply_probe(c):
     """Values of a probe case: a function of the case record only (replays rebuild them)."""
+    if c.get('probe') == 'assoc-two-widths' and c.get('val_toks'):
+        w0, w1 = c['ids'][0] % 1000, c['ids'][4] % 1000
+        for j, toks in enumerate(c['val_toks']):
+            if len(toks) != 6:
+                continue
+            a = j % (2 ** w0 - 1)
+            b2 = (2 ** w0 - 1) % (2 ** w1 - 1) if j == 0 else (j + 2) % (2 ** w1 - 1)
+            toks[1], toks[4] = 'i%d' % a, 'i%d' % b2
+            c['py_vals'][j][1], c['py_vals'][j][4] = a, b2
+        return
     if c.get('probe') == 'skipped-local-widths' and c.get('val_toks'):
         w0, w1 = c['ids'][0] % 1000, c['ids'][3] % 1000
         for j, toks in enumerate(c['val_toks']):
@@ -278,6 +303,7 @@ def run(ctx):
     cases += cross_version_marker_cases(ctx, ctx.n(8, 120))
     cases += refval_zero_cases(ctx, ctx.n(12, 200))
     cases += skipped_local_width_cases(ctx, ctx.n(12, 200))
+    cases += assoc_width_cases(ctx, ctx.n(12, 200))
     P.attach_templates(cases)
     P.run_gen(cases)
     for c in cases:
